@@ -520,24 +520,13 @@ def r8_visitor(ctx, F, cb):
                   (cb.strat, pv), span=visit.span)
 
 
-def run(ctx):
-    F = ctx.facts
-    ctx.doc('C01-R1', 'cut the "was absent" edges of the visited-set arbitration: enqueue must be '
-                      'unreachable from a successor')
-    ctx.doc('C01-R2', 'cut the enqueue: from a successful insert neither the next successor, the next '
-                      'dequeue nor return may be reachable')
-    ctx.doc('C01-R3', 'enqueue/arbitration/counting are dominated by within_boundary(successor)=true; '
-                      'initial states flow only through filter(within_boundary) into both the visited '
-                      'set and the initial jobs')
-    ctx.doc('C01-R4', 'from the dequeue, every path to the next dequeue/return passes Model::actions '
-                      'after cutting the depth-limit skip and the nothing-awaited exit; budget test '
-                      'dominates the dequeue')
-    ctx.doc('C01-R5', 'successor loop has no exit but exhaustion and iterates the whole actions vector')
-    ctx.doc('C01-R6', 'state_count incremented (by 1) before arbitration, initialised from the filtered '
-                      'init vector; getters read the fields the workers update')
-    ctx.doc('C01-R7', 'job market discards work only when closed; split pieces and pushed batches are '
-                      'stored; pop returns a stored batch or empty')
-    ctx.doc('C01-R8', 'visitor is called for every evaluated job with a path rebuilt from that job')
+def coverage_rules(ctx, F, with_docs=True):
+    """The state-space coverage rules (R1-R5, R7, R9, R10). Also evaluated by C02 and C11, whose
+    "if and only if" statements presuppose that every reachable in-boundary state is evaluated."""
+    import c05
+    import c19
+    if with_docs:
+        _docs(ctx)
     for strat in EXHAUSTIVE:
         with ctx.rule('C01-R1', strat):
             r1_r2(ctx, CB(F, strat))
@@ -547,17 +536,40 @@ def run(ctx):
             r4_expand_or_sanctioned(ctx, CB(F, strat))
         with ctx.rule('C01-R5', strat):
             r5_all_actions(ctx, CB(F, strat))
+    with ctx.rule('C01-R7', 'job_market'):
+        r7_market(ctx, F)
+    c05.r8_atomic_arbitration(ctx, F, rule='C01-R9')
+    c19.r5_worker_queue(ctx, F, rule='C01-R10', with_join=False)
+
+
+def _docs(ctx):
+    ctx.doc('C01-R1', 'cut the "was absent" edges of the visited-set arbitration: enqueue must be '
+                      'unreachable from a successor')
+    ctx.doc('C01-R2', 'cut the enqueue: from a successful insert neither the next successor, the next '
+                      'dequeue nor return may be reachable')
+    ctx.doc('C01-R3', 'enqueue/arbitration are dominated by within_boundary(successor)=true; '
+                      'initial states flow only through filter(within_boundary) into both the visited '
+                      'set and the initial jobs')
+    ctx.doc('C01-R4', 'from the dequeue, every path to the next dequeue/return passes Model::actions '
+                      'after cutting the depth-limit skip and the nothing-awaited exit; budget test '
+                      'dominates the dequeue')
+    ctx.doc('C01-R5', 'successor loop has no exit but exhaustion and iterates the whole actions vector')
+    ctx.doc('C01-R6', 'state_count incremented (by 1) before any new insert, initialised from the filtered '
+                      'init vector; getters read the fields the workers update')
+    ctx.doc('C01-R7', 'job market discards work only when closed; split pieces and pushed batches are '
+                      'stored; pop returns a stored batch or empty')
+    ctx.doc('C01-R8', 'visitor is called for every evaluated job with a path rebuilt from that job')
+    ctx.doc('C01-R9', 'the visited set is only touched through single-call (atomic) insert-if-absent '
+                      'arbitration, so no state is enqueued by two workers')
+    ctx.doc('C01-R10', 'worker-local job queues are (re)assigned only when empty; the on-demand worker appends '
+                       'processed/new jobs back to its pending queue')
+
+
+def run(ctx):
+    F = ctx.facts
+    coverage_rules(ctx, F)
+    for strat in EXHAUSTIVE:
         with ctx.rule('C01-R6', strat):
             r6_counters(ctx, F, CB(F, strat))
         with ctx.rule('C01-R8', strat):
             r8_visitor(ctx, F, CB(F, strat))
-    with ctx.rule('C01-R7', 'job_market'):
-        r7_market(ctx, F)
-    import c05
-    ctx.doc('C01-R9', 'the visited set is only touched through single-call (atomic) insert-if-absent '
-                      'arbitration, so no state is enqueued by two workers')
-    c05.r8_atomic_arbitration(ctx, F, rule='C01-R9')
-    import c19
-    ctx.doc('C01-R10', 'worker-local job queues are (re)assigned only when empty; the on-demand worker appends '
-                       'processed/new jobs back to its pending queue')
-    c19.r5_worker_queue(ctx, F, rule='C01-R10', with_join=False)
